@@ -148,17 +148,22 @@ func (r *RoundTripper) RoundTripOpt(req *http.Request, opt RoundTripOpt) (*http.
 		}
 	}
 	if err != nil {
+		if err != ErrNoCachedConn { // the caller sends the request elsewhere when there is no cached connection
+			closeRequestBody(req)
+		}
 		return nil, err
 	}
 
 	select {
 	case <-cl.dialing:
 	case <-req.Context().Done():
+		closeRequestBody(req)
 		return nil, context.Cause(req.Context())
 	}
 
 	if cl.dialErr != nil {
 		r.removeClient(hostname)
+		closeRequestBody(req)
 		return nil, cl.dialErr
 	}
 	defer cl.useCount.Add(-1)
